@@ -267,6 +267,12 @@ def ld_cases(rng, tier):
         ttbr0, ttbr1 = rng.getrandbits(32), rng.getrandbits(32)
         mem = []
         label = 'ld_no_region'
+        # directed part of the stream: full-depth walks whose leaf permits everything and in which exactly one hierarchical
+        # attribute (NSTable, APTable[1], APTable[0], XNTable, PXNTable) is set in exactly one table descriptor, so that an
+        # attribute dropped between levels shows in the permission check or the NS bit of the result
+        directed = rng.random() < 0.4
+        hier_bit = rng.choice([63, 62, 62, 61, 61, 60, 59])
+        hier_level = rng.choice([1, 2])
         if in1 or in0:
             sz, ttbr = (t1, ttbr1) if in1 else (t0, ttbr0)
             level = 1 if sz < 2 else 2
@@ -281,6 +287,8 @@ def ld_cases(rng, tier):
                 addr = base + sel * 8
                 kinds = ['invalid', 'leaf', 'leaf', 'table', 'table'] if level < 3 else ['invalid', 'leaf', 'leaf', 'leaf', 'reserved']
                 kind = rng.choice(kinds)
+                if directed:
+                    kind = 'table' if level < 3 else 'leaf'
                 d = rng.getrandbits(64) & ~((0xFF << 40) | 3)            # output address below 2^40
                 if rng.random() < 0.8:
                     d |= 1 << 10                                          # access flag
@@ -288,6 +296,12 @@ def ld_cases(rng, tier):
                     d &= ~(0x1F << 59)                                    # table attributes mostly clear
                 if rng.random() < 0.6:
                     d = (d & ~(3 << 6)) | (1 << 6)                        # AP[2:1] = 01: read/write at any privilege
+                if directed:
+                    d &= ~(0x1F << 59)
+                    if kind == 'table' and level == hier_level:
+                        d |= 1 << hier_bit
+                    if kind == 'leaf':
+                        d = (d | (1 << 10)) & ~((3 << 6) | (3 << 53)) | (1 << 6)     # AF, AP = 01, XN = PXN = 0
                 if kind == 'invalid':
                     pass
                 elif kind == 'reserved':
@@ -334,6 +348,12 @@ def ld_cases(rng, tier):
         m = statelib.coq_machine(st)
         sec = int(cfgd['have_security_ext'])
         priv, w = rng.choice([0, 1]), rng.choice([0, 1])
+        if directed and hier_bit == 62:
+            w = 1 if rng.random() < 0.8 else w
+        if directed and hier_bit == 61:
+            priv = 0 if rng.random() < 0.8 else priv
+        if directed and label.startswith('ld_l3'):
+            label = f'ld_hier_b{hier_bit}_l{hier_level}'
         impl = {'kind': 'method', 'state': st, 'method': 'translate_address', 'args': [va, bool(priv), bool(w), 4, True],
                 'rt': ['addrdesc_pa'], '_only_result': True}
         spec = f'(ld_translate_spec {sec} {m} {va} {b(priv)} {b(w)})'
